@@ -18,6 +18,12 @@ class MonitorViolation(Exception):
 _armed = {}
 
 
+def window_bits(buf, p, n):
+    """the n bits starting at bit p of buf, computed from the covering bytes only (keeps the oracle O(n), not O(len))"""
+    lo, hi = p // 8, (p + n + 7) // 8
+    return bits.bitstr(buf[lo:hi])[p - 8 * lo:p - 8 * lo + n]
+
+
 def _wide(n):
     return "n0" if n == 0 else "n<=8" if n <= 8 else "n<=64" if n <= 64 else "n>64"
 
@@ -45,7 +51,7 @@ def arm_reads(ctx, tag="c03"):
             c.count("read_as_int.out_of_domain")
             return True
         c.count("read_as_int.evaluations")
-        exp = bits.u(bits.bitstr(OLD.buf)[p:p + nbits])
+        exp = bits.u(window_bits(OLD.buf, p, nbits))
         aligned = "al" if (p % 8 == 0 and nbits % 8 == 0) else "un"
         key = None
         if type(result) is not int or result != exp:
@@ -68,7 +74,7 @@ def arm_reads(ctx, tag="c03"):
             c.count("read_as_bytes.out_of_domain")
             return True
         c.count("read_as_bytes.evaluations")
-        exp = bits.bits_to_bytes_left_padded(bits.bitstr(OLD.buf)[p:p + nbits])
+        exp = bits.bits_to_bytes_left_padded(window_bits(OLD.buf, p, nbits))
         aligned = "al" if (p % 8 == 0 and nbits % 8 == 0) else "un"
         key = None
         if not isinstance(result, bytes) or bytes(result) != exp:
@@ -91,7 +97,7 @@ def arm_reads(ctx, tag="c03"):
             c.count("_extract_bits.out_of_domain")
             return True
         c.count("_extract_bits.evaluations")
-        exp = bits.u(bits.bitstr(data)[start_bit:start_bit + nbits])
+        exp = bits.u(window_bits(bytes(data), start_bit, nbits))
         if result != exp:
             c.violation("_extract_bits/value", f"_extract_bits(len={len(data)}, {start_bit}, {nbits}) -> {result!r}; expected {exp}",
                         {"buf": bytes(data)[:64], "start_bit": start_bit, "nbits": nbits, "result": result, "expected": exp})
@@ -128,7 +134,7 @@ def arm_numeric(ctx):
             c.count("int_raw.other_encoding")
             return True
         c.count("int_raw.evaluations")
-        exp = bits.int_field(bits.bitstr(buf)[p:p + n], self.encoding, little)
+        exp = bits.int_field(window_bits(buf, p, n), self.encoding, little)
         key = None
         if type(result) is not int or result != exp:
             key = f"int/value/{self.encoding}/{'LE' if little else 'BE'}"
@@ -149,7 +155,7 @@ def arm_numeric(ctx):
             c.count("float_raw.out_of_domain")
             return True
         c.count("float_raw.evaluations")
-        fb = bits.bitstr(buf)[p:p + n]
+        fb = window_bits(buf, p, n)
         exp = bits.mil1750a(fb, little) if self.encoding == "MILSTD_1750A" else bits.float_field(fb, little)
         key = None
         if type(result) is not float or not bits.same_float(result, exp):
